@@ -5,6 +5,13 @@ concrete history on which the property fails on the real code.  They never look 
 A monitor takes a case (see vcheck.parse_trace) and returns None or (step, message)."""
 
 
+
+def is_panic(out, snap):
+    """the harness writes a panicking call as result -1000 with an EMPTY snapshot (the history ends there); a
+    result that happens to be the number -1000 (SampledLFU::room_left can return it) has a snapshot"""
+    return out == [-1000] and not snap
+
+
 def lru_snap(snap):
     """`cap n (k v)* wf` -> (cap, [(k, v)...], wf)"""
     if len(snap) < 2:
@@ -26,7 +33,7 @@ def mon_c06(case):
     prev = (cap, [])
     stamp, clock = {}, 0
     for step, (op, out, cb, acct, snap) in enumerate(case["lines"], 1):
-        if not op or op[0] in (98, 99) or out == [-1000]:
+        if not op or op[0] in (98, 99) or is_panic(out, snap):
             continue
         s = lru_snap(snap)
         if s is None:
@@ -147,7 +154,7 @@ def mon_c01(case):
     resident_idx = LAYOUT[kind][2]
     names = LAYOUT[kind][1]
     for step, (op, out, cb, acct, snap) in enumerate(case["lines"], 1):
-        if not op or op[0] in (98, 99) or out == [-1000]:
+        if not op or op[0] in (98, 99) or is_panic(out, snap):
             continue
         p = parse_snap(kind, snap)
         if p is None:
@@ -184,7 +191,7 @@ def mon_c01(case):
 def mon_c05(case):
     """no operation (and no accepted constructor call) panics"""
     for step, (op, out, cb, acct, snap) in enumerate(case["lines"], 1):
-        if out == [-1000]:
+        if is_panic(out, snap):
             what = "the constructor" if op and op[0] == 98 else ("drop" if op and op[0] == 99 else f"operation {op}")
             return step, f"{what} panicked"
     return None
@@ -194,7 +201,7 @@ def mon_c16(case):
     """clone: the clone (which replaces the original in the harness) has the same snapshot"""
     prev = None
     for step, (op, out, cb, acct, snap) in enumerate(case["lines"], 1):
-        if op and op[0] == 25 and prev is not None and out != [-1000]:
+        if op and op[0] == 25 and prev is not None and not is_panic(out, snap):
             if snap != prev:
                 return step, f"the clone differs from the original: {prev} -> {snap}"
             if out == [-6]:
@@ -203,7 +210,7 @@ def mon_c16(case):
             return step, "the TinyLFU clone differs from the original"
         if op and op[0] == 29 and out != [1]:
             return step, "an operation on the clone changed the original (or vice versa)"
-        if out != [-1000]:
+        if not is_panic(out, snap):
             prev = snap
     return None
 
@@ -222,7 +229,7 @@ def mon_c20(case):
         return None
     prev = (case["cfg"][0], 0, case["cfg"][1], {})
     for step, (op, out, cb, acct, snap) in enumerate(case["lines"], 1):
-        if not op or op[0] in (98, 99) or out == [-1000]:
+        if not op or op[0] in (98, 99) or is_panic(out, snap):
             continue
         cur = sampled_snap(snap)
         if cur is None:
@@ -318,8 +325,8 @@ def mon_c13(case):
         return None
     prev = None
     for step, (op, out, cb, acct, snap) in enumerate(case["lines"], 1):
-        if not op or op[0] in (98, 99) or out == [-1000]:
-            prev = None if out == [-1000] else prev
+        if not op or op[0] in (98, 99) or is_panic(out, snap):
+            prev = None if is_panic(out, snap) else prev
             continue
         if prev is not None and is_read_only(kind, op):
             if snap != prev:
@@ -339,7 +346,7 @@ def mon_c15(case):
     hascb = case["cfg"][1] != 0
     prev = []
     for step, (op, out, cb, acct, snap) in enumerate(case["lines"], 1):
-        if not op or op[0] in (98, 99) or out == [-1000]:
+        if not op or op[0] in (98, 99) or is_panic(out, snap):
             continue
         s = lru_snap(snap)
         if s is None:
@@ -363,7 +370,7 @@ def mon_c07(case):
     pc, fc = case["cfg"][0], case["cfg"][1]
     prob, prot = [], []
     for step, (op, out, cb, acct, snap) in enumerate(case["lines"], 1):
-        if not op or op[0] in (98, 99) or out == [-1000]:
+        if not op or op[0] in (98, 99) or is_panic(out, snap):
             continue
         p = parse_snap(1, snap)
         if p is None:
@@ -443,7 +450,7 @@ def mon_c08(case):
     size, rs, es = case["cfg"][:3]
     r, f, g = [], [], []
     for step, (op, out, cb, acct, snap) in enumerate(case["lines"], 1):
-        if not op or op[0] in (98, 99) or out == [-1000]:
+        if not op or op[0] in (98, 99) or is_panic(out, snap):
             continue
         p = parse_snap(2, snap)
         if p is None:
@@ -533,7 +540,7 @@ def mon_c09(case):
     size = case["cfg"][0]
     p, t1, b1, t2, b2 = 0, [], [], [], []
     for step, (op, out, cb, acct, snap) in enumerate(case["lines"], 1):
-        if not op or op[0] in (98, 99) or out == [-1000]:
+        if not op or op[0] in (98, 99) or is_panic(out, snap):
             continue
         ps = parse_snap(3, snap)
         if ps is None:
@@ -699,7 +706,7 @@ def mon_c10(case):
     win, prob, prot, tiny = [], [], [], None
     first = True
     for step, (op, out, cb, acct, snap) in enumerate(case["lines"], 1):
-        if not op or op[0] in (98, 99) or out == [-1000]:
+        if not op or op[0] in (98, 99) or is_panic(out, snap):
             continue
         ps = parse_snap(4, snap)
         if ps is None:
@@ -779,7 +786,7 @@ def mon_c12(case):
     kind = case["kind"]
     if kind == 7:
         for step, (op, out, cb, acct, snap) in enumerate(case["lines"], 1):
-            if op and op[0] == 130 and out != [-1000]:
+            if op and op[0] == 130 and not is_panic(out, snap):
                 a, b = op[1:5], op[5:9]
                 def norm(r):
                     return (r[0],) + tuple(r[1:1 + [0, 1, 2, 3][min(r[0], 3)]])
@@ -792,7 +799,7 @@ def mon_c12(case):
     resident_idx = LAYOUT[kind][2]
     prevs = None
     for step, (op, out, cb, acct, snap) in enumerate(case["lines"], 1):
-        if not op or op[0] in (98, 99) or out == [-1000]:
+        if not op or op[0] in (98, 99) or is_panic(out, snap):
             continue
         p = parse_snap(kind, snap)
         if p is None:
@@ -880,7 +887,7 @@ def mon_c02(case):
     shadow = {}
     prev_lists = None
     for step, (op, out, cb, acct, snap) in enumerate(case["lines"], 1):
-        if not op or op[0] in (98, 99) or out == [-1000]:
+        if not op or op[0] in (98, 99) or is_panic(out, snap):
             continue
         p = parse_snap(kind, snap)
         if p is None:
@@ -1006,7 +1013,7 @@ def mon_c14(case):
         return None
     prev_lists = None
     for step, (op, out, cb, acct, snap) in enumerate(case["lines"], 1):
-        if not op or op[0] in (98, 99) or out == [-1000]:
+        if not op or op[0] in (98, 99) or is_panic(out, snap):
             continue
         p = parse_snap(kind, snap)
         if p is None:
@@ -1100,7 +1107,7 @@ def mon_c11(case):
     def exact(h):
         return cnt.get(h, 0) + (1 if h in door else 0)
     for step, (op, out, cb, acct, snap) in enumerate(case["lines"], 1):
-        if not op or op[0] in (98, 99) or out == [-1000]:
+        if not op or op[0] in (98, 99) or is_panic(out, snap):
             continue
         ntiny = parse_tiny(snap)
         c = op[0]
@@ -1169,14 +1176,14 @@ def mon_c03(case):
     identity: an update or a hit moves the same node to the front, an insertion into a full list recycles the least
     recently used node, an insertion with room links a node that was not linked before, nothing else moves"""
     kind = case["kind"]
-    if kind == 11:
+    if kind in HLAYOUT:
         return mon_c03_slru(case)
     if kind not in LAYOUT and kind != 9:
         return None
     prev = None
     for step, (op, out, cb, acct, snap) in enumerate(case["lines"], 1):
-        if not op or op[0] == 98 or out == [-1000]:
-            prev = None if out == [-1000] else prev
+        if not op or op[0] == 98 or is_panic(out, snap):
+            prev = None if is_panic(out, snap) else prev
             continue
         if op[0] == 99:
             if len(out) >= 6:
@@ -1252,6 +1259,11 @@ def mon_c03(case):
             elif c == 7:
                 if names:
                     msg = f"purge left nodes linked: {names}"
+            elif c == 25:
+                if set(names) & set(pnames):
+                    msg = f"the clone shares nodes with the original: nodes {pnames} -> {names}"
+                elif keys != pkeys:
+                    msg = f"the clone does not hold the keys of the original in their order: {pkeys} -> {keys}"
             elif c == 11:
                 want = pnames if op[1] == pcap else pnames[:op[1]]
                 if names != want:
@@ -1320,13 +1332,25 @@ def mon_c18(case):
     return None
 
 
-def parse_hssnap(snap):
-    """kind 11: pc fc, then per list: n (k v name)*n and n index names; then wf -> ([ [(k,v,name)], ...], [[idx]...], wf)"""
-    if len(snap) < 5:
+# node-level snapshots of the composite caches: kind -> (header numbers, number of lists, identity groups)
+# identity groups: lists among which an entry moves by relinking its node (never by copying); W-TinyLFU moves
+# entries between its window and its main cache by value, so those are separate groups
+HLAYOUT = {
+    11: (2, 2, [[0, 1]]),
+    12: (3, 3, [[0, 1, 2]]),
+    13: (2, 4, [[0, 1, 2, 3]]),
+    14: (3, 3, [[0], [1, 2]]),
+}
+
+
+def parse_named(kind, snap):
+    """-> ([ [(k,v,name)] per list ], [[index names] per list], wf) or None"""
+    hdr, nl, _ = HLAYOUT[kind]
+    if len(snap) < hdr + nl + 1:
         return None
-    i = 2
+    i = hdr
     lists, idxs = [], []
-    for _ in range(2):
+    for _ in range(nl):
         if i >= len(snap):
             return None
         n = snap[i]
@@ -1341,14 +1365,16 @@ def parse_hssnap(snap):
 
 
 def mon_c03_slru(case):
-    """SegmentedCache at node level, on the implementation alone: both lists are audited chains matching their
-    indices, no node is in two lists, and node identity is kept across the lists: a key that is resident before and
-    after a call sits in the same node (promotion and demotion move nodes, they do not copy entries); a node that
-    appears is either new or the recycled node of a key that left"""
+    """composite caches at node level (kinds 11-14), on the implementation alone: every list is an audited chain
+    matching its index, no node is in two lists, and node identity is kept across the lists of a group: a key that
+    is in the group before and after a call sits in the same node (promotion, demotion, ghosting and revival move
+    nodes, they do not copy entries); a node that appears is either new or the recycled node of a key that left"""
+    kind = case["kind"]
+    groups = HLAYOUT[kind][2]
     prev = None
     for step, (op, out, cb, acct, snap) in enumerate(case["lines"], 1):
-        if not op or op[0] == 98 or out == [-1000]:
-            prev = None if out == [-1000] else prev
+        if not op or op[0] == 98 or is_panic(out, snap):
+            prev = None if is_panic(out, snap) else prev
             continue
         if op[0] == 99:
             if len(out) >= 6 and out[5]:
@@ -1356,7 +1382,7 @@ def mon_c03_slru(case):
             if len(out) >= 6 and out[4]:
                 return step, f"{out[4]} heap blocks of the cache were not freed when it was dropped"
             continue
-        p = parse_hssnap(snap)
+        p = parse_named(kind, snap)
         if p is None:
             return step, "unreadable snapshot"
         lists, idxs, wf = p
@@ -1364,21 +1390,31 @@ def mon_c03_slru(case):
             return step, f"after call {op[:4]} a list is not a well-formed chain matching its index (structural audit failed)"
         names = [a for l in lists for _, _, a in l]
         if len(set(names)) != len(names):
-            return step, f"after call {op[:4]} a node is linked in both lists or twice: {names}"
+            return step, f"after call {op[:4]} a node is linked in two lists or twice: {names}"
         for l, ix in zip(lists, idxs):
             if sorted(a for _, _, a in l) != ix:
                 return step, f"after call {op[:4]} the index nodes {ix} are not the linked nodes {sorted(a for _, _, a in l)}"
-        cur = {k: a for l in lists for k, _, a in l}
-        if prev is not None:
-            for k, a in cur.items():
-                if k in prev and prev[k] != a:
-                    return step, (f"call {op[:4]}: key {k} stayed resident but moved from node {prev[k]} to node {a} "
-                                  "(entries are moved between the lists by relinking their node, never by copying)")
-            gone = {a for k, a in prev.items() if k not in cur}
-            old_names = set(prev.values())
-            for k, a in cur.items():
-                if k not in prev and a in old_names and a not in gone:
-                    return step, f"call {op[:4]}: the new key {k} sits in node {a}, which still belongs to another resident key"
+        cur = [{k: a for li in g for k, _, a in lists[li]} for g in groups]
+        if prev is not None and op[0] == 25:
+            # x = x.clone(): every node of the clone is new, the keys are the same
+            shared = {a for pc in prev for a in pc.values()} & set(names)
+            if shared:
+                return step, f"call {op[:4]}: the clone shares the nodes {sorted(shared)} with the original"
+            if [sorted(pc) for pc in prev] != [sorted(cc) for cc in cur]:
+                return step, f"call {op[:4]}: the clone does not hold the keys of the original"
+        elif prev is not None:
+            for gi, (pc, cc) in enumerate(zip(prev, cur)):
+                for k, a in cc.items():
+                    if op[0] == 30 and k == op[1]:
+                        continue    # put_protected takes the entry out of one segment and puts it into the other by value
+                    if k in pc and pc[k] != a:
+                        return step, (f"call {op[:4]}: key {k} stayed in the cache but moved from node {pc[k]} to node {a} "
+                                      "(entries are moved between the lists by relinking their node, never by copying)")
+                gone = {a for k, a in pc.items() if k not in cc}
+                old_names = set(pc.values())
+                for k, a in cc.items():
+                    if k not in pc and a in old_names and a not in gone:
+                        return step, f"call {op[:4]}: the new key {k} sits in node {a}, which still belongs to another key"
         prev = cur
     return None
 
@@ -1391,7 +1427,7 @@ def mon_c04(case):
         return None
     retained = 0
     for step, (op, out, cb, acct, snap) in enumerate(case["lines"], 1):
-        if not op or op[0] == 98 or out == [-1000]:
+        if not op or op[0] == 98 or is_panic(out, snap):
             continue
         if op[0] == 99:
             if len(out) >= 6:
